@@ -79,10 +79,17 @@ class Decoder:
         return v
 
     def open_region(self, path, limit):
+        # every enclosing region the announced size cannot fit in is violated at this point; the statement does not say which
+        # of several is named, so each is an acceptable description (as for Exceeded in prim())
+        alts = []
         for r in self.regions:
             if (self.pos - r["start"]) + limit > r["limit"]:
-                raise Stop({"kind": "AnticipatedSizeConstraintExceededError", "constraint_path": r["path"], "size_max": r["limit"], "size_already": self.pos - r["start"],
-                            "violator_path": path, "violator_value": limit, "exceeded_by": (self.pos - r["start"]) + limit - r["limit"], "bytes_remaining": self.data[self.pos:]})
+                alts.append({"kind": "AnticipatedSizeConstraintExceededError", "constraint_path": r["path"], "size_max": r["limit"], "size_already": self.pos - r["start"],
+                             "violator_path": path, "violator_value": limit, "exceeded_by": (self.pos - r["start"]) + limit - r["limit"], "bytes_remaining": self.data[self.pos:]})
+        if alts:
+            err = dict(alts[0])
+            err["alternatives"] = alts
+            raise Stop(err)
         r = {"path": path, "limit": limit, "start": self.pos}
         self.regions.append(r)
         return r
